@@ -659,6 +659,9 @@ func (b *Buffer) write(call goja.FunctionCall) goja.Value {
 	// the length defaults to the size of the buffer - offset
 	maxLength := int64(len(bb)) - offset
 	length := goutil.OptionalIntegerArgument(b.r, call, "length", 2, maxLength)
+	if length < 0 {
+		panic(errors.NewArgumentOutOfRangeError(b.r, "length", length))
+	}
 	codec := b.getStringCodec(call.Argument(3))
 
 	raw := codec.Decode(str)
